@@ -38,13 +38,16 @@ def cu_key(cu):
 def line_program(lp, cap=None):
     if lp is None:
         return None
+    # decode first: DW_LNE_define_file appends to the header's file table while decoding (documented), so the
+    # header is only complete - and stable - after get_entries()
+    entries = lp.get_entries()
     h = lp.header
     hdr = {k: canon(h[k]) for k in ('version', 'unit_length', 'header_length', 'minimum_instruction_length', 'default_is_stmt',
                                     'line_base', 'line_range', 'opcode_base', 'standard_opcode_lengths') if k in h}
     hdr['include_directory'] = canon(list(h['include_directory'] or []))
     hdr['file_entry'] = tuple((canon(f.name), f.dir_index, f.mtime, f.length) for f in (h['file_entry'] or []))
     rows = []
-    for e in lp.get_entries()[:cap]:
+    for e in entries[:cap]:
         s = e.state
         rows.append((e.command, e.is_extended, canon(e.args),
                      None if s is None else (s.address, s.op_index, s.file, s.line, s.column, bool(s.is_stmt), s.basic_block, s.end_sequence,
